@@ -239,7 +239,7 @@ def run(P: Program, R: Report, tier: str) -> None:
                     R.check(bool(created), "R12.6", f, s, f"{f.short}: `{dst}` starts empty", "", via="fresh-destination")
             first_wins = any(isinstance(i, ast.If) and "not in" in norm(i.test) for i in ast.walk(lp))
             R.check(first_wins, "R12.6", f, lp, f"{f.short}: a target key is filled once", "", via="syntax")
-    R.floor("R12.6", "renaming loops", n, 2)
+    R.floor("R12.6", "renaming loops", n, 1)
     # ---- R12.7 ids read from a source are tested with `is None` / isna / == sentinel, never by truthiness (0 is a legal id)
     source_id_truthiness(P, R, "R12.7")
     # ---- R12.8 a structural validator can be skipped only for a reason about its own input
